@@ -180,6 +180,7 @@ PROBES = {
     "D9": {"kind": "states", "W": 3, "group": [1, 2], "dst": None,
            "members": [{"m": {"x": {"list": []}}}, {"m": {"x": {"list": [_T1]}}}]},
     "DST": {"kind": "send", "W": 3, "group": [1, 2], "dst": 1, "members": [_T1, {"dtype": "float32", "shape": [3], "data": [1, 2, 3]}]},
+    "D10": {"kind": "send", "W": 2, "group": [0, 1], "dst": None, "members": [{"dtype": "float32", "shape": [], "data": 1}, _T1]},
 }
 _VARIANT = None
 
@@ -197,13 +198,15 @@ def detect_variant():
     v["D9"] = all(out[r][0] == "ok" for r in (1, 2))
     out, _ = run_sim(PROBES["DST"])
     v["DST"] = all(out[r][0] == "ok" for r in (1, 2))
+    out, _ = run_sim(PROBES["D10"])
+    v["D10"] = all(out[r][0] == "ok" for r in (0, 1))
     _VARIANT = v
     return v
 
 
 def variant_val():
     v = detect_variant()
-    return [v["D12"], v["D9"], v["DST"]]
+    return [v["D12"], v["D9"], v["DST"], v["D10"]]
 
 
 def variant_note():
